@@ -96,6 +96,8 @@ def sample_classes():
     # a very long symbol annotation / comment (objdump -C prints demangled C++ names of several hundred characters)
     out["ops/long_annotation"] = HEAD + [(2, "(?:call|mov|lea)"), (0, " {1,4}"), (3, OPS), (0, " <[a-zA-Z_:<>,*&()]{600,700}>")]
     out["ops/long_comment"] = HEAD + [(2, "(?:mov|lea)"), (0, " {1,4}"), (3, OPS), (0, " {1,8}# [0-9a-f]{4,6} <[a-zA-Z_:]{600,650}>")]
+    # C16: a comment is free text; it may happen to contain the words other line kinds are recognised by
+    out["ops/comment_like_header"] = HEAD + [(2, "(?:mov|lea|call)"), (0, " {1,4}"), (3, OPS), (0, " {1,8}# (?:see the file format table|Disassembly of section \\.text:|0000 <f>:)")]
     out["ops/reg_then_imm"] = HEAD + [(2, "(?:out|outl|enter|bound)"), (0, " {1,4}"), (3, f"{REG},{IMM}"), (0, "")]
     out["ops/prefixed_hint"] = HEAD + [(2, "(?:bnd|cs|ds|repz|rex\\.W)"), (0, " "), (3, f"{JCC},p[tn]"), (0, TAIL)]
     return out
